@@ -697,6 +697,118 @@ pub proof fn lemma_reassembly(ts: Seq<Map<u32, Message>>, rs: Seq<Option<Message
         assert(rs.last() == rs[n]);
     }
 }
+// ---------------- interleaving independence ----------------
+pub open spec fn chan_of(p: Seq<u8>) -> u32 { spec_u32_from_ne(p.subrange(0, 4)) }
+// a step on a packet of another channel leaves channel ch's entry alone and cannot produce a message for ch
+pub proof fn lemma_other_channel_step(t: Map<u32, Message>, p: Seq<u8>, t2: Map<u32, Message>, r: Option<Message>, ch: u32)
+    requires p.len() == 64, chan_of(p) != ch, step_rel(t, p, t2, r), table_wf(t),
+    ensures t2.contains_key(ch) == t.contains_key(ch), t.contains_key(ch) ==> t2[ch] == t[ch],
+            r matches Some(m) ==> m.channel != ch,
+{
+    let c2 = chan_of(p);
+    if p[4] >= 0x80 {
+        match spec_cmd_of(p[4] & 0x7f) {
+            None => {},
+            Some(c) => {
+                let l = p[5] as int * 256 + p[6] as int;
+                if l > 57 { assert(t2.dom().contains(ch) == t.dom().insert(c2).contains(ch)); }
+            }
+        }
+    } else if t.contains_key(c2) {
+        let m0 = t[c2];
+        if p[4] != m0.sequence { assert(t2.dom().contains(ch) == t.dom().contains(ch)); }
+        else {
+            let rem = m0.payload_len - m0.payload@.len();
+            if rem <= 59 { assert(t.remove(c2).contains_key(ch) == t.contains_key(ch)); }
+            else { assert(t2.dom().contains(ch) == t.dom().contains(ch)); }
+        }
+    }
+}
+// runs whose tables stay well-formed (what handle_packet guarantees step by step)
+pub open spec fn is_wf_run(ts: Seq<Map<u32, Message>>, pk: Seq<Seq<u8>>, rs: Seq<Option<Message>>) -> bool {
+    is_run(ts, pk, rs) && forall|q: int| 0 <= q < ts.len() ==> #[trigger] table_wf(ts[q])
+}
+// positions a..b carry only 64-byte packets of other channels
+pub open spec fn others_only(pk: Seq<Seq<u8>>, a: int, b: int, ch: u32) -> bool {
+    forall|q: int| a <= q < b ==> (#[trigger] pk[q]).len() == 64 && chan_of(pk[q]) != ch
+}
+// across a stretch of other channels' packets the reassembly state of ch is frozen
+pub proof fn lemma_hold(ts: Seq<Map<u32, Message>>, pk: Seq<Seq<u8>>, rs: Seq<Option<Message>>, ch: u32, a: int, b: int)
+    requires is_wf_run(ts, pk, rs), 0 <= a <= b <= pk.len(), others_only(pk, a, b, ch),
+    ensures ts[b].contains_key(ch) == ts[a].contains_key(ch), ts[a].contains_key(ch) ==> ts[b][ch] == ts[a][ch],
+        forall|q: int| a <= q < b ==> ((#[trigger] rs[q]) matches Some(m) ==> m.channel != ch),
+    decreases b - a,
+{
+    if a < b {
+        let last = pk[b - 1];
+        assert(last.len() == 64 && chan_of(last) != ch);
+        assert(others_only(pk, a, b - 1, ch));
+        lemma_hold(ts, pk, rs, ch, a, b - 1);
+        let q = b - 1;
+        assert(step_rel(ts[q], pk[q], ts[q + 1], rs[q]));
+        assert(table_wf(ts[q]));
+        lemma_other_channel_step(ts[q], pk[q], ts[q + 1], rs[q], ch);
+        assert(ts[q + 1] == ts[b]);
+    }
+}
+pub open spec fn is_interleaving(pk: Seq<Seq<u8>>, idx: Seq<int>, ch: u32, c: Command, p: Seq<u8>) -> bool {
+    let mine = packets_of(ch, c, p);
+    &&& idx.len() == mine.len()
+    &&& forall|i: int| 0 <= i < idx.len() ==> 0 <= #[trigger] idx[i] < pk.len() && pk[idx[i]] == mine[i]
+    &&& forall|i: int| 0 <= i < idx.len() - 1 ==> #[trigger] idx[i] < idx[i + 1] && others_only(pk, idx[i] + 1, idx[i + 1], ch)
+}
+// after ch's init packet and its first j continuation packets, wherever other channels' packets fall in between
+pub proof fn lemma_interleaved_prefix(ts: Seq<Map<u32, Message>>, pk: Seq<Seq<u8>>, rs: Seq<Option<Message>>, idx: Seq<int>, ch: u32, c: Command, p: Seq<u8>, j: int)
+    requires 57 < p.len() <= 7609, is_wf_run(ts, pk, rs), is_interleaving(pk, idx, ch, c, p), 0 <= j < n_cont(p.len() as int),
+    ensures partial(ts[idx[j] + 1], ch, c, p, j), forall|i: int| 0 <= i <= j ==> rs[#[trigger] idx[i]].is_none(),
+    decreases j,
+{
+    let mine = packets_of(ch, c, p);
+    assert(n_cont(p.len() as int) <= 128) by(nonlinear_arith) requires 57 < p.len() <= 7609;
+    if j == 0 {
+        assert(step_rel(ts[idx[0]], pk[idx[0]], ts[idx[0] + 1], rs[idx[0]]));
+        assert(mine[0] == init_pkt(ch, c, p));
+        lemma_init_step(ts[idx[0]], ch, c, p, ts[idx[0] + 1], rs[idx[0]]);
+    } else {
+        lemma_interleaved_prefix(ts, pk, rs, idx, ch, c, p, j - 1);
+        // other channels' packets between ch's (j-1)-th and j-th packet do not touch ch's entry
+        assert(idx[j - 1] < idx[(j - 1) + 1] && others_only(pk, idx[j - 1] + 1, idx[(j - 1) + 1], ch));
+        lemma_hold(ts, pk, rs, ch, idx[j - 1] + 1, idx[j]);
+        assert(partial(ts[idx[j]], ch, c, p, j - 1));
+        assert(step_rel(ts[idx[j]], pk[idx[j]], ts[idx[j] + 1], rs[idx[j]]));
+        assert(mine[j] == cont_pkt(ch, j - 1, p));
+        assert(p.len() - (57 + 59 * (j - 1)) > 59) by(nonlinear_arith) requires 0 < j < (p.len() - 57 + 58) / 59, 57 < p.len();
+        lemma_cont_step(ts[idx[j]], ch, c, p, j - 1, ts[idx[j] + 1], rs[idx[j]]);
+    }
+}
+// The schedule-quantified part of the property: however the packets of other channels are
+// interleaved with those of (ch, c, p), ch's message is delivered exactly once, on its last packet.
+pub proof fn lemma_interleaved_reassembly(ts: Seq<Map<u32, Message>>, pk: Seq<Seq<u8>>, rs: Seq<Option<Message>>, idx: Seq<int>, ch: u32, c: Command, p: Seq<u8>)
+    requires p.len() <= 7609, is_wf_run(ts, pk, rs), is_interleaving(pk, idx, ch, c, p),
+    ensures
+        forall|i: int| 0 <= i < idx.len() - 1 ==> rs[#[trigger] idx[i]].is_none(),
+        rs[idx.last()] matches Some(m) && m.channel == ch && m.command == c && m.payload@ =~= p && m.payload_len == p.len(),
+{
+    let mine = packets_of(ch, c, p);
+    let n = n_cont(p.len() as int);
+    if p.len() <= 57 {
+        assert(step_rel(ts[idx[0]], pk[idx[0]], ts[idx[0] + 1], rs[idx[0]]));
+        assert(mine[0] == init_pkt(ch, c, p));
+        lemma_init_step(ts[idx[0]], ch, c, p, ts[idx[0] + 1], rs[idx[0]]);
+        assert(idx.last() == idx[0]);
+    } else {
+        assert(1 <= n <= 128) by(nonlinear_arith) requires 57 < p.len() <= 7609, n == (p.len() - 57 + 58) / 59;
+        lemma_interleaved_prefix(ts, pk, rs, idx, ch, c, p, n - 1);
+        assert(idx[n - 1] < idx[(n - 1) + 1] && others_only(pk, idx[n - 1] + 1, idx[(n - 1) + 1], ch));
+        lemma_hold(ts, pk, rs, ch, idx[n - 1] + 1, idx[n]);
+        assert(partial(ts[idx[n]], ch, c, p, n - 1));
+        assert(step_rel(ts[idx[n]], pk[idx[n]], ts[idx[n] + 1], rs[idx[n]]));
+        assert(mine[n] == cont_pkt(ch, n - 1, p));
+        assert(p.len() - (57 + 59 * (n - 1)) <= 59) by(nonlinear_arith) requires n == (p.len() - 57 + 58) / 59, 57 < p.len();
+        lemma_cont_step(ts[idx[n]], ch, c, p, n - 1, ts[idx[n] + 1], rs[idx[n]]);
+        assert(idx.last() == idx[n]);
+    }
+}
 
 } // verus!
 fn main(){}
